@@ -281,6 +281,10 @@ def verdict(v):
 # ------------------------------------------------------------------ the run
 def run(ctx):
     env.tool_inprocess(True)
+    # what is verified must be what is used, octet for octet (declared one-octet encodings, a stray octet put into signed content
+    # after signing): the unit lives with C02 (props/c02.py unit_octets) and states this property's clause just as well
+    import importlib
+    importlib.import_module("props.c02").unit_octets(ctx)
     saved_pol = os.environ.get("PV_XMLSEC_DUP")
     try:
         with env.Clock(NOW), c01ids.Recorder() as rec:
@@ -640,6 +644,9 @@ def unit_library_output(ctx):
 def replay(ctx, payload):
     env.tool_inprocess(True)
     inp = payload.get("input") or {}
+    if inp.get("unit") == "octets":
+        import importlib
+        return importlib.import_module("props.c02").replay_octets(ctx, inp)
     print("replay:", {k: v for k, v in inp.items() if k != "xml"})
     xml = inp.get("xml")
     if not xml:
